@@ -12,6 +12,7 @@ import (
 	"strconv"
 	"strings"
 	"sync"
+	"sync/atomic"
 	"testing"
 	"time"
 
@@ -122,6 +123,8 @@ func segments(d []byte) [][]byte {
 
 // ---------- lexer entry point ----------
 
+var lexerHung int32
+
 func lexNoPanic(t vt.TB, l *verifhooks.Lexer, line []byte, ns string) (m *gostatsd.Metric, e *gostatsd.Event, err error) {
 	buf := append([]byte(nil), line...)
 	defer func() {
@@ -130,7 +133,45 @@ func lexNoPanic(t vt.TB, l *verifhooks.Lexer, line []byte, ns string) (m *gostat
 			vt.Fail(t, "C03:lexer-panic", "lexer panicked on line %q: %v", trunc(line), p)
 		}
 	}()
-	m, e, err = l.Run(buf, ns)
+	// a line that is never finished wedges the parser goroutine for good: bounded wait (10 s, then 1 s once it has happened -
+	// a lexer that is still spinning cannot be used again, later calls get a fresh one)
+	if atomic.LoadInt32(&lexerHung) != 0 {
+		l = verifhooks.NewLexer(4)
+	}
+	type res struct {
+		m   *gostatsd.Metric
+		e   *gostatsd.Event
+		err error
+		p   interface{}
+		st  []byte
+	}
+	ch := make(chan res, 1)
+	go func() {
+		var r res
+		defer func() {
+			if p := recover(); p != nil {
+				r.p, r.st = p, debug.Stack()
+			}
+			ch <- r
+		}()
+		r.m, r.e, r.err = l.Run(buf, ns)
+	}()
+	patience := 10 * time.Second
+	if atomic.LoadInt32(&lexerHung) != 0 {
+		patience = time.Second
+	}
+	select {
+	case r := <-ch:
+		if r.p != nil {
+			vt.WriteCase(map[string]interface{}{"line": string(line), "panic": fmt.Sprint(r.p), "stack": string(r.st)})
+			vt.Fail(t, "C03:lexer-panic", "lexer panicked on line %q: %v", trunc(line), r.p)
+		}
+		m, e, err = r.m, r.e, r.err
+	case <-time.After(patience):
+		atomic.StoreInt32(&lexerHung, 1)
+		vt.WriteCase(map[string]interface{}{"line": string(line), "hang": true})
+		vt.Fail(t, "C03:lexer-wedged", "the lexer did not finish line %q within %v (namespace %q): the parser goroutine that took it is gone for good", trunc(line), patience, ns)
+	}
 	if err == nil && (m == nil) == (e == nil) {
 		vt.Fail(t, "C03:lexer-no-outcome", "line %q: neither error nor exactly one of metric/event", trunc(line))
 	}
